@@ -64,6 +64,7 @@ structure St where
   kind : CipherKind
   l    : Listener Nat
   f    : Dial.Filter
+  dead : Bool := false      -- `l.die` closed (after `lclose`)
 
 def world : World Nat := { kcpInput := fun n _ => n + 1, init := fun _ => 0, closeFx := id }
 
@@ -93,11 +94,11 @@ def parseAddr : List String → Option Dial.Addr
 
 def stepL (s : St) : List String → St × String
   | ["lnew", kind] => match parseKind kind with
-    | some k => ({ s with kind := k, l := Listener.empty }, "ok")
+    | some k => ({ s with kind := k, l := Listener.empty, dead := false }, "ok")
     | none => (s, "bad-op")
   | ["lin", addr, raw, aux] => match bytesOfHex raw, mkCipher s.kind aux with
     | some d, some c =>
-      let r := listenerInput world c s.l d addr
+      let r := listenerInputD world c s.l s.dead d addr
       ({ s with l := r.l }, showDecision r.dec ++ " " ++ showTable r.l)
     | _, _ => (s, "bad-op")
   | ["accept"] =>
@@ -112,6 +113,9 @@ def stepL (s : St) : List String → St × String
   | ["close", id] => match id.toNat? with
     | some i => let l' := userClose world s.l i; ({ s with l := l' }, "ok " ++ showTable l')
     | none => (s, "bad-op")
+  | ["lclose"] =>
+    let l' := listenerClose world s.l s.dead
+    ({ s with l := l', dead := true }, "ok " ++ showTable l')
   | "dial" :: "nil" :: [] => ({ s with f := Dial.Filter.init none }, "ok")
   | "dial" :: rest => match parseAddr rest with
     | some a => ({ s with f := Dial.Filter.init (some a) }, "ok")
